@@ -123,7 +123,7 @@ def _build(rng, members: list[dict], *, data_order: str = "shuffle", align: int 
             expected.append((name, "file", 0, b""))
         elif kind == "std":
             data = m["data"]
-            hdrs.append(header(nb, len(data), m.get("typeflag", b"0"), visor=False, prefix=prefix, gnu=not prefix and rng.random() < 0.5))
+            hdrs.append(header(nb, len(data), m.get("typeflag", b"0"), visor=False, prefix=prefix, gnu=not prefix and rng.random() < 0.5, mode=m.get("mode", 0o644)))
             std_data_at[i] = len(hdrs)
             hdrs.append(data.ljust(-(-len(data) // 512) * 512, b"\0"))
             expected.append((name, "file", len(data), data))
@@ -167,13 +167,22 @@ def _build(rng, members: list[dict], *, data_order: str = "shuffle", align: int 
         pos += len(d)
         if align:
             pos = -(-pos // align) * align
+    if far and blobs and rng.random() < 0.5:
+        # the member stored last starts just below 4 GiB and ends beyond it (only the start offset is a 32-bit field)
+        lpos, ld = blobs[-1]
+        owners = [i_ for i_, o_ in offs.items() if o_ == lpos]
+        npos = (1 << 32) - rng.choice([512, align or 512, 1])
+        if len(ld) >= 2 and npos > lpos and all(o_ + len(d_) <= npos for o_, d_ in blobs[:-1]):
+            blobs[-1] = (npos, ld)
+            for i_ in owners:
+                offs[i_] = npos
     out = bytearray()
     for h in hdrs:
         if isinstance(h, tuple):
             _, i, nb, prefix = h
             d = members[i]["data"]
             # with a pax size record in front, the size field of the header itself may be left at zero (the record decides)
-            out += header(nb, 0 if members[i].get("hdr_size_zero") else len(d), members[i].get("typeflag", b"0"), offset_data=offs[i], prefix=prefix, text_pgs=members[i].get("text_pgs", 0),
+            out += header(nb, 0 if members[i].get("hdr_size_zero") else len(d), members[i].get("typeflag", b"0"), offset_data=offs[i], prefix=prefix, mode=members[i].get("mode", 0o644), text_pgs=members[i].get("text_pgs", 0),
                           fixup_pgs=members[i].get("fixup_pgs", 0), word2=members[i].get("word2", 0))
         else:
             out += h
